@@ -663,7 +663,10 @@ func showInJSDepth(env *env, out io.Writer, value any, path *showPath) error {
 					if omitempty && isEmptyValue(value) {
 						continue
 					}
-					if tagName != "" {
+					if hasTagOption(tag, "omitzero") && isZeroValue(value) {
+						continue
+					}
+					if isValidTagName(tagName) {
 						name = tagName
 					}
 				}
@@ -893,6 +896,7 @@ func showInJSONDepth(env *env, out io.Writer, value any, path *showPath) error {
 			if field := t.Field(i); field.PkgPath == "" && !strings.HasPrefix(field.Name, "\U0001d5fd") {
 				name := field.Name
 				value := v.Field(i)
+				quoted := false
 				if tag := field.Tag.Get("json"); tag != "" {
 					if tag == "-" {
 						continue
@@ -901,9 +905,13 @@ func showInJSONDepth(env *env, out io.Writer, value any, path *showPath) error {
 					if omitempty && isEmptyValue(value) {
 						continue
 					}
-					if tagName != "" {
+					if hasTagOption(tag, "omitzero") && isZeroValue(value) {
+						continue
+					}
+					if isValidTagName(tagName) {
 						name = tagName
 					}
+					quoted = hasTagOption(tag, "string") && isQuotableType(field.Type)
 				}
 				if first {
 					_, err = w.WriteString(`"`)
@@ -917,7 +925,11 @@ func showInJSONDepth(env *env, out io.Writer, value any, path *showPath) error {
 					_, err = w.WriteString(`":`)
 				}
 				if err == nil {
-					err = showInJSONDepth(env, w, value.Interface(), path)
+					if quoted {
+						err = showQuotedInJSON(env, w, value.Interface(), path)
+					} else {
+						err = showInJSONDepth(env, w, value.Interface(), path)
+					}
 				}
 				first = false
 			}
@@ -1148,6 +1160,97 @@ func parseTagValue(tag string) (name string, omitempty bool) {
 		tag = tag[i+1:]
 	}
 	return name, false
+}
+
+// hasTagOption reports whether the options of a 'json' tag value contain
+// the given option.
+func hasTagOption(tag, option string) bool {
+	_, options, _ := strings.Cut(tag, ",")
+	for options != "" {
+		var o string
+		o, options, _ = strings.Cut(options, ",")
+		if o == option {
+			return true
+		}
+	}
+	return false
+}
+
+// isValidTagName reports whether name can be used as the name of a field
+// in a 'json' tag. As encoding/json does, a name that is not valid is
+// ignored and the name of the field is used.
+func isValidTagName(name string) bool {
+	if name == "" {
+		return false
+	}
+	for _, c := range name {
+		switch {
+		case strings.ContainsRune("!#$%&()*+-./:;<=>?@[]^_{|}~ ", c):
+			// Backslash and quote chars are reserved, but
+			// otherwise any punctuation chars are allowed
+			// in a tag name.
+		case !unicode.IsLetter(c) && !unicode.IsDigit(c):
+			return false
+		}
+	}
+	return true
+}
+
+// isZeroValue reports whether v is omitted by the 'omitzero' option of a
+// 'json' tag: it is the zero value of its type or, if the type has an
+// IsZero method, that method returns true.
+func isZeroValue(v reflect.Value) bool {
+	switch v.Kind() {
+	case reflect.Interface, reflect.Pointer:
+		if v.IsNil() {
+			return true
+		}
+	}
+	if z, ok := v.Interface().(interface{ IsZero() bool }); ok {
+		return z.IsZero()
+	}
+	return v.IsZero()
+}
+
+// isQuotableType reports whether the 'string' option of a 'json' tag
+// applies to a field with type t: as for encoding/json, only strings,
+// floats, integers and booleans, and pointers to them, can be quoted.
+func isQuotableType(t reflect.Type) bool {
+	if t.Name() == "" && t.Kind() == reflect.Pointer {
+		t = t.Elem()
+	}
+	switch t.Kind() {
+	case reflect.Bool,
+		reflect.Int, reflect.Int8, reflect.Int16, reflect.Int32, reflect.Int64,
+		reflect.Uint, reflect.Uint8, reflect.Uint16, reflect.Uint32, reflect.Uint64, reflect.Uintptr,
+		reflect.Float32, reflect.Float64,
+		reflect.String:
+		return true
+	}
+	return false
+}
+
+// showQuotedInJSON shows value in JSON context as a JSON string that
+// contains the JSON encoding of value; null is not quoted.
+func showQuotedInJSON(env *env, out io.Writer, value any, path *showPath) error {
+	var b strings.Builder
+	err := showInJSONDepth(env, &b, value, path)
+	if err != nil {
+		return err
+	}
+	w := newStringWriter(out)
+	if b.String() == "null" {
+		_, err = w.WriteString("null")
+		return err
+	}
+	_, err = w.WriteString("\"")
+	if err == nil {
+		err = jsonStringEscape(w, b.String())
+	}
+	if err == nil {
+		_, err = w.WriteString("\"")
+	}
+	return err
 }
 
 // isEmptyValue reports whether v is an empty value for JS and JSON.
